@@ -68,6 +68,22 @@ pub trait Resolve: {
     fn get_data_or_decode(&self, id: PlainRef, range: Range<usize>, filters: &[StreamFilter]) -> Result<Arc<[u8]>>;
 }
 
+/// Follows a reference to the object it denotes. An indirect object may itself be a reference;
+/// such chains are followed for a bounded number of steps, so that a chain that leads back to
+/// itself ends in an error (the typed readers used to recurse on it without bound).
+pub fn resolve_chain(first: PlainRef, r: &impl Resolve) -> Result<Primitive> {
+    let mut p = r.resolve(first)?;
+    let mut budget = 16;
+    while let Primitive::Reference(next) = p {
+        if budget == 0 {
+            bail!("reference chain starting at object {} is too long or cyclic", first.id);
+        }
+        budget -= 1;
+        p = r.resolve(next)?;
+    }
+    Ok(p)
+}
+
 pub struct NoResolve;
 impl Resolve for NoResolve {
     fn resolve_flags(&self, _: PlainRef, _: ParseFlags, _: usize) -> Result<Primitive> {
@@ -585,7 +601,7 @@ impl Object for Dictionary {
     fn from_primitive(p: Primitive, r: &impl Resolve) -> Result<Self> {
         match p {
             Primitive::Dictionary(dict) => Ok(dict),
-            Primitive::Reference(id) => Dictionary::from_primitive(r.resolve(id)?, r),
+            Primitive::Reference(id) => Dictionary::from_primitive(resolve_chain(id, r)?, r),
             _ => Err(PdfError::UnexpectedPrimitive {expected: "Dictionary", found: p.get_debug_name()}),
         }
     }
@@ -616,7 +632,7 @@ impl<T: Object> Object for Vec<T> {
             Primitive::Null => {
                 Vec::new()
             }
-            Primitive::Reference(id) => Self::from_primitive(r.resolve(id)?, r)?,
+            Primitive::Reference(id) => Self::from_primitive(resolve_chain(id, r)?, r)?,
             _ => vec![T::from_primitive(p, r)?]
         }
         )
@@ -712,7 +728,7 @@ impl<V: Object> Object for HashMap<Name, V> {
                 }
                 Ok(new)
             }
-            Primitive::Reference (id) => HashMap::from_primitive(resolve.resolve(id)?, resolve),
+            Primitive::Reference (id) => HashMap::from_primitive(resolve_chain(id, resolve)?, resolve),
             p => Err(PdfError::UnexpectedPrimitive {expected: "Dictionary", found: p.get_debug_name()})
         }
     }
